@@ -62,3 +62,17 @@ CHECKS["C01"] = dict(
           dict(name="fuzz-knxnet", kind="fuzz", pkg="./pure", go=GO, target="FuzzKnxnetUnpack", fuzztime=90),
           dict(name="fuzz-cemi", kind="fuzz", pkg="./pure", go=GO, target="FuzzCemiUnpack", fuzztime=60)],
 )
+
+CHECKS["C11"] = dict(
+    rule=("enumerated L_Data descriptions (all 2^16 control-octet pairs, all APCI x sequence x numbered x control/data combinations, "
+          "payload lengths 1..254, info lengths 0..255, corner addresses), all 256 x 256 TPCI/APCI octet pairs as raw layouts, the "
+          "five helper functions over all 256 arguments, plus rapid-drawn L_Data values; differential in both directions against the "
+          "independent reference L_Data encoder/decoder. Every enumerated case is distinct by construction and counts as non-trivial "
+          "(each exercises a different bit pattern); rapid cases are distinct by reference encoding."),
+    level_text=("Exhaustive on the bit-level sub-spaces the statement names, sampled on their product; exact byte-level differential "
+                "oracle against an independently written layout codec."),
+    level_note="Trusted: harness/common/ref.go (the layout, written from the statement / KNX 03_06_03).",
+    technique="exhaustive enumeration + rapid sampling, byte-level differential against an independent reference codec",
+    assumptions=["the 4-bit transport sequence number is carried only when the numbered flag is set (encoder side)"],
+    jobs=[dict(name="pure", pkg="./pure", go=GO, test="TestC11", shards=(2, 16), checks=(30000, 400000), timeout=(300, 3000))],
+)
